@@ -116,6 +116,9 @@ CASE_TIMEOUT = 10
 # ----------------------------------------------------------------------------------------
 # values: JSON <-> Python
 
+NONE = "<obj:NoneType>"      # how None travels in JSON (and in the model: an object known by its class name)
+
+
 def dec(j):
     """JSON value -> fresh Python value (tuples and dicts are tagged)"""
     if isinstance(j, list):
@@ -125,7 +128,11 @@ def dec(j):
             return tuple(dec(x) for x in j["t"])
         if "d" in j:
             return {k: dec(v) for k, v in j["d"].items()}
+        if "q" in j:
+            return float(j["q"][0]) / float(j["q"][1])      # a float value of a flow, given exactly
         raise ValueError(j)
+    if j == NONE:
+        return None
     return j
 
 
@@ -162,6 +169,12 @@ def model_value(j):
 
 
 EXC = {"Other:ValueError": ValueError, "Other:TypeError": TypeError, "Other:IndexError": IndexError}
+LENA_EXC = ["LenaValueError", "LenaStopFill", "LenaTypeError"]
+
+
+def exc_class(name):
+    import lena.core
+    return EXC[name] if name in EXC else getattr(lena.core, name)
 
 
 def make_flow(flow, term, as_list=False):
@@ -345,6 +358,63 @@ def syn_class(run, call, fill, compute, nodata, request=None, fill_into=0, reset
 JUNK = {"none": None}
 
 
+def syn_raise_class():
+    if "raise" not in _SYN_CACHE:
+        class SynRaise(object):
+            def __init__(self, exc):
+                self.exc, self.filled = exc, []
+
+            def fill(self, v):
+                import lena.flow
+                d = lena.flow.get_data(v)
+                if type(d) is int and d == 13:
+                    raise self.exc("fill failed")
+                self.filled.append(v)
+
+            def compute(self):
+                yield ["fcr", list(self.filled)]
+        _SYN_CACHE["raise"] = SynRaise
+    return _SYN_CACHE["raise"]
+
+
+def both_class():
+    if "both" not in _SYN_CACHE:
+        class Both(object):
+            """callable without arguments (a generator) and iterable, with different contents"""
+            def __init__(self, cflow, iflow):
+                self.cflow, self.iflow = cflow, iflow
+
+            def __call__(self):
+                import copy
+                for v in copy.deepcopy(self.cflow):       # fresh values at every call, like a generator function
+                    yield v
+
+            def __iter__(self):
+                return iter(list(self.iflow))
+        _SYN_CACHE["both"] = Both
+    return _SYN_CACHE["both"]
+
+
+def syn_alt_class(hasrun, alt):
+    key = ("alt", hasrun, alt)
+    if key not in _SYN_CACHE:
+        ns = {}
+        if hasrun:
+            def run_(self, flow):
+                for v in flow:
+                    yield ["run", v]
+            ns["run"] = run_
+        if alt == 2:
+            def alt_(self, flow):
+                for v in flow:
+                    yield ["alt", v]
+            ns["alt"] = alt_
+        elif alt == 1:
+            ns["alt"] = 5
+        _SYN_CACHE[key] = type("SynAlt_r%d_a%d" % (int(hasrun), alt), (object,), ns)
+    return _SYN_CACHE[key]
+
+
 def build(spec):
     """the real object denoted by a spec; constructors may raise (Python evaluation order: left to right, inner first)"""
     import lena.core
@@ -402,6 +472,35 @@ def build(spec):
             return syn_class(spec["run"], spec["call"], spec["fill"], spec["compute"], spec["nodata"],
                              spec["request"], spec["fill_into"], spec["reset"], spec["alter"])()
         return syn_class(spec["run"], spec["call"], spec["fill"], spec["compute"], spec["nodata"])()
+    if k == "callx":
+        to_none, exc = spec["none"], spec.get("exc")
+
+        def callx(v):
+            d = lena.flow.get_data(v)
+            if type(d) is int:
+                if to_none:
+                    return None if d % 2 == 1 else v
+                if d == 13:
+                    raise exc_class(exc)("callable failed")
+            return v
+        return callx
+    if k == "filterx":
+        exc = spec["exc"]
+
+        def predx(v):
+            d = lena.flow.get_data(v)
+            if type(d) is int and d == 13:
+                raise exc_class(exc)("predicate failed")
+            return True
+        return lena.flow.Filter(predx)
+    if k == "synraise":
+        return syn_raise_class()(exc_class(spec["exc"]))
+    if k == "both":
+        return both_class()(dec(spec["cflow"]), dec(spec["iflow"]))
+    if k == "runalt":
+        return lena.core.Run(syn_alt_class(spec["hasrun"], spec["alt"])(), run="alt")
+    if k == "classobj":
+        return lena.flow.Reverse
     if k == "iterobj":
         import itertools
         vals, term, cls = dec(spec["flow"]), spec.get("term"), spec["cls"]
@@ -427,7 +526,7 @@ def build(spec):
         flow = spec["flow"]
         return lambda: iter(dec(flow))
     if k == "iter":
-        return dec(spec["flow"])
+        return tuple(dec(spec["flow"])) if spec.get("tuple") else dec(spec["flow"])
     raise ValueError(k)
 
 
@@ -520,8 +619,26 @@ def _construct(thunk):
         return None, {"e": exc_name(e), "phase": "init"}
 
 
-def run_variant(els, brk, flow, term, as_list=False):
+def nest_objs(objs, brk):
+    """Sequence arguments from already built top-level objects, grouped as the bracketing says"""
     import lena.core
+    return [objs[b] if isinstance(b, int) else lena.core.Sequence(*nest_objs(objs, b)) for b in brk]
+
+
+def build_shared(els, share):
+    """top-level objects where position share[1] IS the object at position share[0] (one object passed twice)"""
+    objs = [build(s) for s in els]
+    objs[share[1]] = objs[share[0]]
+    return objs
+
+
+def run_variant(els, brk, flow, term, as_list=False, share=None):
+    import lena.core
+    if share:
+        seq, err = _construct(lambda: lena.core.Sequence(*nest_objs(build_shared(els, share), brk)))
+        if err:
+            return err
+        return observe(lambda: seq.run(make_flow(flow, term, as_list)))
     seq, err = _construct(lambda: lena.core.Sequence(*[build(s) for s in nest(els, brk)]))
     if err:
         return err
@@ -572,7 +689,7 @@ def element_facts(els):
     return facts
 
 
-def reference(els, flow, term):
+def reference(els, flow, term, share=None):
     """The property's own statement: feed each element's stream transformation with the output of the previous one.
     No Sequence, no adapters: fresh elements, chained by hand.  Run's documented transformations: an element with
     run -> run(flow); a callable -> its map over the flow; fill/compute -> fill the whole flow, then compute."""
@@ -582,6 +699,8 @@ def reference(els, flow, term):
         if err:
             return {"skip": "element constructor raised"}
         objs.append(el)
+    if share:
+        objs[share[1]] = objs[share[0]]
     stages = []
     for el in objs:
         fl = flags_of(el)
@@ -611,10 +730,10 @@ def run_impl(case):
     op = case["op"]
     if op == "regroup":
         els, flow, term = case["els"], case["flow"], case.get("term")
-        res = {"variants": [run_variant(els, b, flow, term, bool(case.get("lst"))) for b in case["brks"]],
+        res = {"variants": [run_variant(els, b, flow, term, bool(case.get("lst")), case.get("share")) for b in case["brks"]],
                "flat": [run_flat(els, b, flow, term) for b in case["brks"][:2]],
                "facts": [{k: v for k, v in f.items() if k != "flags"} for f in element_facts(els)],
-               "ref": reference(els, flow, term),
+               "ref": reference(els, flow, term, case.get("share")),
                "shape": shape_of(els, case["brks"][-1])}
         return res
     if op == "rerun":
@@ -669,6 +788,59 @@ def run_impl(case):
         if err:
             return err
         return observe(lambda: seq.run(make_flow(case["flow"], case.get("term"))))
+    if op == "source_rerun":
+        args, k = [case["first"]] + case["els"], case["k"]
+        src, err = _construct(lambda: lena.core.Source(*[build(s) for s in args]))
+        facts = element_facts(args)
+        outs = err
+        if not err:
+            outs = []
+            for _i in range(k):
+                o = observe(lambda: src())
+                outs.append(o)
+                if o["t"] is not None:
+                    break
+        # hand-chained reference: ONE first object and one object per tail element, used k times
+        ref = None
+        if not err and all(f["ctor"] is None for f in facts) and all(f["nodata"] or f["conv"] for f in facts[1:]) \
+                and not facts[0]["nodata"]:
+            objs = [build(s) for s in args]
+            first = objs[0]
+            stages = [(el, flags_of(el)) for el in objs[1:]]
+            stages = [(el, fl) for el, fl in stages if not fl["nodata"]]
+
+            def chain():
+                cur = first() if callable(first) else first
+                cur = iter(cur)
+                for el, fl in stages:
+                    if fl["run"] == 2:
+                        cur = el.run(cur)
+                    elif fl["call"]:
+                        cur = (lambda f, it: (f(v) for v in it))(el, cur)
+                    else:
+                        for v in cur:
+                            el.fill(v)
+                        cur = el.compute()
+                return iter(cur)
+            ref = []
+            for _i in range(k):
+                o = observe(chain)
+                ref.append(o)
+                if o["t"] is not None:
+                    break
+        return {"outs": outs, "ref": ref, "facts": [{k2: v for k2, v in f.items() if k2 != "flags"} for f in facts]}
+    if op == "tie":
+        what = case["what"]
+        if what == "runifs":
+            mk = lambda: lena.core.Sequence(lena.flow.RunIf(make_pred(case["p"]), *[build(s) for s in case["inner"]]))
+        elif what == "accold":
+            mk = lambda: lena.core.Sequence(build(dict(case["acc"], k="acc")))
+        else:
+            mk = lambda: lena.core.Sequence(lena.flow.Slice(*case["args"]))
+        seq, err = _construct(mk)
+        if err:
+            return err
+        return observe(lambda: seq.run(make_flow(case["flow"], case.get("term"))))
     if op == "source0":
         src, err = _construct(lambda: lena.core.Source())
         return err if err else {"built": True}
@@ -705,9 +877,12 @@ def run_impl(case):
                 break
         res["eff"] = eff
         # the flow of the first element itself, fed to a plain chain of the tail elements
-        if eff is not None and args[eff]["k"] in ("gen", "iter", "iterobj"):
+        if eff is not None and args[eff]["k"] in ("gen", "iter", "iterobj", "both"):
             # Source(first, *tl)() == the tail elements chained by hand on <the values of first>
-            res["ref"] = reference(args[eff + 1:], args[eff]["flow"], args[eff].get("term"))
+            # (an object that is callable and iterable is called: "an object with a generator function __call__()
+            # or an iterable")
+            res["ref"] = reference(args[eff + 1:], args[eff]["cflow" if args[eff]["k"] == "both" else "flow"],
+                                   args[eff].get("term"))
         return res
     if op == "flags":
         el, err = _construct(lambda: build(case["spec"]))
@@ -749,6 +924,15 @@ def model_requests(case):
         return [{"op": "flags", "spec": case["spec"]}]
     if op == "source0":
         return [{"op": "source", "args": []}]
+    if op == "source_rerun":
+        return [{"op": "source_rerun", "args": [case["first"]] + case["els"], "k": case["k"]}]
+    if op == "tie":
+        what = case["what"]
+        if what == "runifs":
+            return [{"op": "runifs", "p": case["p"], "inner": case["inner"], "flow": case["flow"], "term": case.get("term")}]
+        if what == "accold":
+            return [dict(case["acc"], op="accold", flow=case["flow"])]
+        return [{"op": "pyslice", "args": case["args"], "flow": case["flow"]}]
     if op == "splits":
         return [{"op": "splits", "branches": case["branches"], "bufsize": case["bufsize"], "flow": case["flow"],
                  "term": case.get("term")},
@@ -822,9 +1006,30 @@ def compare(case, res, replies):
             m = _canon_reply(replies[i])
             if _differs(m, res["variants"][i]):
                 return f"cut {cut}: impl {res['variants'][i]} vs model {m}"
+            sp = replies[i].get("spec")
+            if cut == len(case["els"]) + 1 and sp is not None and "e" not in res["variants"][i] \
+                    and _differs(_canon_reply(sp), res["variants"][i]):
+                return f"Source()(): impl {res['variants'][i]} vs model right-hand side of source_tail {_canon_reply(sp)}"
         return None
     if op == "source0":
         return None if res == replies[0] else f"Source(): impl {res} vs model {replies[0]}"
+    if op == "source_rerun":
+        m = replies[0]
+        if "e" in m or not isinstance(res["outs"], list):
+            return None if m == res["outs"] else f"impl {res['outs']} vs model {m}"
+        for i, o in enumerate(res["outs"]):
+            if _differs(_canon_reply(m["outs"][i]), o):
+                return f"call {i} of one Source object: impl {o} vs model (Src.callAt) {_canon_reply(m['outs'][i])}"
+        return None
+    if op == "tie":
+        m = replies[0]
+        if "e" in m or "e" in res:
+            return None if m == res else f"impl {res} vs model {m}"
+        if case["what"] == "runifs":
+            return None if not _differs(_canon_reply(m), res) else f"RunIf: impl {res} vs model runIfS {_canon_reply(m)}"
+        if _differs(model_value(m["r"]), res["r"]) or (case["what"] == "accold" and m["t"] != res["t"]):
+            return f"{case['what']}: impl {res} vs model {m}"
+        return None
     if op == "splits":
         for nm, m in (("splitS", replies[0]), ("splitH", replies[1])):
             if _differs(_canon_reply(m), res):
@@ -887,7 +1092,8 @@ def oracle(case, res):
                     return f"{nm}: an element constructor raises, but got {v}; {what}"
             elif not isinstance(v, list):
                 return f"{nm}: every argument is convertible but construction raised {v}; {what}"
-            elif any(o["t"] == "LenaTypeError" for o in v):
+            elif any(o["t"] == "LenaTypeError" for o in v) and not any(
+                    o["t"] == "LenaTypeError" for o in (res["ref"] or [])):
                 return f"{nm}: LenaTypeError raised during a run: {v}; {what}"
         if exp != "ok":
             return None
@@ -896,10 +1102,31 @@ def oracle(case, res):
         ref = res["ref"]
         if ref is not None:
             for i, (o, r) in enumerate(zip(res["whole"], ref)):
-                if r["t"] is None and (o["t"] is not None or o["r"] != r["r"]):
-                    return f"run {i}: Sequence.run gives {o} but the hand-chained elements give {r['r']}; {what}"
-                if r["t"] is not None and o["t"] is None:
-                    return f"run {i}: the hand-chained elements raise {r['t']} but Sequence.run completed with {o['r']}; {what}"
+                if o["r"] != r["r"] or o["t"] != r["t"]:
+                    return (f"run {i}: Sequence.run gives {o} but the hand-chained elements give {r['r']}"
+                            + (f" and then raise {r['t']}" if r["t"] else "") + f"; {what}")
+        return None
+    if op == "tie":
+        return None          # ties of auxiliary model functions to the code; the statements are checked by the other ops
+    if op == "source_rerun":
+        outs, ref = res["outs"], res["ref"]
+        what = f"one Source({case['first']}, *{case['els']}) object called {case['k']} times"
+        exp = _init_expectation(res["facts"][1:])
+        if res["facts"][0]["ctor"] is not None or res["facts"][0]["nodata"]:
+            return None
+        if exp == "reject":
+            if outs != {"e": "LenaTypeError", "phase": "init"}:
+                return f"unconvertible argument must be rejected with LenaTypeError at construction, got {outs}; {what}"
+            return None
+        if exp == "ctor" or ref is None:
+            return None
+        if not isinstance(outs, list):
+            return f"every argument is convertible but construction raised {outs}; {what}"
+        for i, (o, r) in enumerate(zip(outs, ref)):
+            if o["r"] != r["r"] or o["t"] != r["t"]:
+                return (f"call {i}: Source.__call__ gives {o} but the flow of the first element chained by hand through "
+                        f"the (same) tail elements gives {r['r']}" + (f" and then raises {r['t']}" if r["t"] else "")
+                        + f"; {what}")
         return None
     if op == "splits":
         return None          # Split's schedule is the subject of C03; here the two model forms are tied to the code
@@ -924,7 +1151,8 @@ def oracle(case, res):
             else:
                 if "e" in v:
                     return f"{nm}: every argument is convertible but construction raised {v}; {what}"
-                if v["t"] == "LenaTypeError":
+                if v["t"] == "LenaTypeError" and res["ref"].get("t") != "LenaTypeError":
+                    # (an element of the vocabulary may raise LenaTypeError itself: then the hand-chained elements do too)
                     return f"{nm}: LenaTypeError raised during the run, not at construction: {v}; {what}"
         if exp != "ok":
             return None
@@ -934,25 +1162,20 @@ def oracle(case, res):
                 return f"regrouping changes the result: {names[0]} gives {vs[0]} but {nm} gives {v}; {what}"
         # the result is the left-to-right composition of the elements' own stream transformations
         ref = res["ref"]
-        if "skip" not in ref and ref["t"] is None:
-            if vs[0]["t"] is not None or vs[0]["r"] != ref["r"]:
-                return (f"Sequence.run gives {vs[0]} but feeding each element's transformation with the output of the "
-                        f"previous one gives {ref['r']}; {what}")
-        elif "skip" not in ref:
-            if vs[0]["t"] is None:
-                return (f"the composition of the elements' transformations raises {ref['t']} after {ref['r']} "
-                        f"but Sequence.run completed with {vs[0]['r']}; {what}")
+        if "skip" not in ref and (vs[0]["r"] != ref["r"] or vs[0]["t"] != ref["t"]):
+            return (f"Sequence.run gives {vs[0]} but feeding each element's transformation with the output of the "
+                    f"previous one gives {ref['r']}" + (f" and then raises {ref['t']}" if ref["t"] else "") + f"; {what}")
         # an empty sequence is the identity
         n_data = sum(1 for f in res["facts"] if not f["nodata"])
         if n_data == 0:
-            want = {"r": case["flow"], "t": case.get("term"), "eager": False}
+            want = {"r": [enc(v) for v in dec(case["flow"])], "t": case.get("term"), "eager": False}
             if vs[0] != want:
                 return f"a Sequence without data elements must be the identity, got {vs[0]}; {what}"
         return None
     if op == "source":
         eff = res.get("eff")
         args = [case["first"]] + case["els"]
-        if eff is None or args[eff]["k"] not in ("gen", "iter", "seq", "iterobj"):
+        if eff is None or args[eff]["k"] not in ("gen", "iter", "seq", "iterobj", "both"):
             return None      # first-element rules are covered by the correspondence, not by this statement
         n = len(case["els"])
         # the cuts whose Source contains the effective first element (arguments before it carry no data)
@@ -974,7 +1197,7 @@ def oracle(case, res):
             else:
                 if "e" in v:
                     return f"{nm}: every argument is convertible but construction raised {v}; {what}"
-                if v["t"] == "LenaTypeError":
+                if v["t"] == "LenaTypeError" and (res.get("ref") or {}).get("t") != "LenaTypeError":
                     return f"{nm}: LenaTypeError raised during the run, not at construction: {v}; {what}"
         if exp != "ok":
             return None
@@ -982,9 +1205,9 @@ def oracle(case, res):
             if v != vs[0]:
                 return f"placing elements after the first element of a Source changes the result: {names[0]} gives {vs[0]} but {nm} gives {v}; {what}"
         ref = res.get("ref")
-        if ref and "skip" not in ref and ref["t"] is None and vs:
-            if vs[0]["t"] is not None or vs[0]["r"] != ref["r"]:
-                return f"{names[0]} gives {vs[0]} but the composition of the tail elements on the first element's flow gives {ref['r']}; {what}"
+        if ref and "skip" not in ref and vs and (vs[0]["r"] != ref["r"] or vs[0]["t"] != ref["t"]):
+            return (f"{names[0]} gives {vs[0]} but the tail elements chained by hand on the first element's flow give "
+                    f"{ref['r']}" + (f" and then raise {ref['t']}" if ref["t"] else "") + f"; {what}")
         return None
     raise ValueError(op)
 
@@ -1023,10 +1246,14 @@ def gen_value(rng, kind):
     if kind == "pairs":
         return {"t": [rng.choice(INTS), {"d": gen_ctx(rng)}]}
     # mixed
-    if r < 0.5:
+    if r < 0.45:
         return rng.choice(INTS)
-    if r < 0.8:
+    if r < 0.72:
         return {"t": [rng.choice(INTS), {"d": gen_ctx(rng)}]}
+    if r < 0.76:
+        return NONE                                                   # None
+    if r < 0.80:
+        return {"q": rng.choice([[1, 2], [3, 2], [5, 1], [-1, 4], [0, 1]])}    # a float (dyadic, given exactly)
     if r < 0.87:
         return rng.choice(["s", "tt"])
     if r < 0.92:
@@ -1061,7 +1288,7 @@ def gen_syn(rng, stateless=False):
 def fc_capable(spec):
     """does the object have callable fill and compute (is_fill_compute_el)? decided from the spec alone"""
     k = spec["k"]
-    if k in ("acc", "count"):
+    if k in ("acc", "count", "synraise"):
         return True
     if k == "syn":
         return spec["fill"] == 2 and spec["compute"] == 2
@@ -1092,18 +1319,26 @@ def new_state(rerun=False, stateless=False, region=None):
     generator was driven to the end; a RunIf/Split that is not driven to the end does not run its inner elements on the
     remaining values) no Slice (the only element that stops pulling early) is generated in the region: the model
     describes a repeated run by the complete earlier inputs"""
-    return {"rerun": rerun, "stateless": stateless, "region": region if region is not None else ({"stateful_seen": False} if rerun else None)}
+    return {"rerun": rerun, "stateless": stateless, "no_stopfill": False, "region": region if region is not None else ({"stateful_seen": False} if rerun else None)}
 
 
 def gen_atom(rng, st):
     """a non-nested element"""
     rerun, stateless, region = st["rerun"], st["stateless"], st["region"]
     r = rng.random()
+    lena_excs = [e for e in LENA_EXC if not (st.get("no_stopfill") and e == "LenaStopFill")]
     if r < 0.22:
+        rr = rng.random()
+        if rr < 0.08:
+            return {"k": "callx", "none": True, "exc": None}               # returns None for odd data
+        if rr < 0.16:
+            return {"k": "callx", "none": False, "exc": rng.choice(lena_excs)}   # raises a Lena exception on 13
         return {"k": "call", "f": rng.choice(FNS)}
     if r < 0.30:
         return {"k": "var", "name": rng.choice(["x", "y"]), "f": rng.choice(["inc", "neg", "ident", "mod3"])}
     if r < 0.42:
+        if rng.random() < 0.12:
+            return {"k": "filterx", "exc": rng.choice(lena_excs)}
         return {"k": "filter", "p": rng.choice(PREDS)}
     if r < 0.58:
         if region is not None and region["stateful_seen"]:
@@ -1115,12 +1350,20 @@ def gen_atom(rng, st):
         return {"k": "end"}
     if r < 0.70:
         rr = rng.random()
-        if rr < 0.4:
+        if rr < 0.25:
             return {"k": "junk"}
-        if rr < 0.8:
+        if rr < 0.5:
             return {"k": "setctx"}
-        if rr < 0.9:
+        if rr < 0.57:
             return {"k": "runnonebad"}
+        if rr < 0.64:
+            return {"k": "iter", "flow": [1, 2]}          # a list as an element: iterable, not convertible
+        if rr < 0.71:
+            return {"k": "classobj"}                       # a class instead of an instance
+        if rr < 0.80:
+            return {"k": "runalt", "hasrun": rng.random() < 0.7, "alt": rng.choice([0, 1, 2, 2])}
+        if rr < 0.87:
+            return {"k": "both", "cflow": [1, 2], "iflow": [7]}
         return {"k": "runnone", "f": rng.choice(FNS)}
     if r < 0.78:
         s = gen_syn(rng, stateless=stateless)
@@ -1134,7 +1377,9 @@ def gen_atom(rng, st):
     if r < 0.86:
         return {"k": "count", "name": rng.choice(COUNT_NAMES)}
     # accumulators
-    a = rng.choice(["sum", "mean", "store", "store", "count"])
+    a = rng.choice(["sum", "mean", "store", "store", "count", "raise"])
+    if a == "raise":
+        return {"k": "synraise", "exc": rng.choice(lena_excs)}     # a fill that raises a Lena exception on 13
     if a == "store":
         # a StoreFilled that is run again yields its stored value objects again; with yield_as_a_group=False the
         # elements after it (Count, Variable) would have changed their contexts in place in the earlier run
@@ -1162,6 +1407,7 @@ def gen_branch(rng, st, depth):
             elif rr < 0.88 and depth < 2:
                 # FillInto runs a RunIf value by value (the model runs it without history: stateless inner elements)
                 ist = new_state(rerun=True, stateless=True)
+                ist["no_stopfill"] = True      # Split treats a LenaStopFill out of seq.fill() specially (C03/C05)
                 pre.append({"k": "runif", "p": rng.choice(PREDS),
                             "inner": [gen_elem(rng, ist, depth + 2) for _ in range(rng.choice([0, 1, 2]))]})
             elif rr < 0.90:
@@ -1188,10 +1434,12 @@ def gen_branch(rng, st, depth):
                   {"k": "acc", "a": "count", "name": rng.choice(COUNT_NAMES)} if a == "count" else {"k": "acc", "a": a})
         # the sequence after the element is run once per Split.run (the model runs it without history)
         ast = new_state(rerun=False, stateless=st["rerun"])
+        ast["no_stopfill"] = st.get("no_stopfill", False)
         after = [gen_elem(rng, ast, depth + 1) for _ in range(rng.choice([0, 0, 1, 2]))]
         return pre + [fc] + after
     # sequence branch: one rerun region
     bst = new_state(rerun=True, stateless=st["stateless"])
+    bst["no_stopfill"] = st.get("no_stopfill", False)
     b = []
     for _ in range(rng.choice([0, 1, 1, 2, 3])):
         for _try in range(20):
@@ -1221,6 +1469,7 @@ def gen_elem(rng, st, depth):
     if r < 0.88:
         # the inner sequence of a RunIf is a rerun region of its own objects
         ist = new_state(rerun=True, stateless=st["stateless"], region=st["region"] if st["rerun"] else None)
+        ist["no_stopfill"] = st.get("no_stopfill", False)
         n = rng.choice([0, 1, 1, 2, 3])
         inner = [gen_elem(rng, ist, depth + 1) for _ in range(n)]
         if rng.random() < 0.25:
@@ -1231,7 +1480,7 @@ def gen_elem(rng, st, depth):
         branches = [gen_branch(rng, st, depth) for _ in range(nb)]
         if st["rerun"] and st["region"] is not None:
             # an element with state somewhere in the branches is upstream of whatever follows the Split in this region
-            if any(k == "count" or k.startswith("acc:") or k == "syn:fc" for b in branches for k in _kinds_of(b)):
+            if any(k in ("count", "synraise") or k.startswith("acc:") or k == "syn:fc" for b in branches for k in _kinds_of(b)):
                 st["region"]["stateful_seen"] = True
         bufsize = rng.choice([None, 1, 2, 3, 4, 1000]) if rng.random() < 0.97 else 0
         return {"k": "split", "branches": branches, "bufsize": bufsize}
@@ -1286,7 +1535,11 @@ REPRESENTATIVES = (
                                    [{"k": "call", "f": "wrap"}]], "bufsize": 2},
        {"k": "split", "branches": [[{"k": "filter", "p": "even"}, {"k": "count", "name": "n"}],
                                    [{"k": "acc", "a": "mean"}, {"k": "acc", "a": "sum"}]], "bufsize": None},
-       {"k": "split", "branches": [[{"k": "reverse"}, {"k": "acc", "a": "sum"}]], "bufsize": 1}]
+       {"k": "split", "branches": [[{"k": "reverse"}, {"k": "acc", "a": "sum"}]], "bufsize": 1},
+       # None results, Lena exceptions from callables / predicates / fill, explicit method names, a class object
+       {"k": "callx", "none": True, "exc": None}, {"k": "callx", "none": False, "exc": "LenaStopFill"},
+       {"k": "filterx", "exc": "LenaValueError"}, {"k": "synraise", "exc": "LenaStopFill"},
+       {"k": "synraise", "exc": "LenaValueError"}, {"k": "runalt", "hasrun": True, "alt": 2}, {"k": "classobj"}]
 )
 
 FLOW_A = [1, 2, 3, 4, 13, 6]
@@ -1328,6 +1581,13 @@ def gen_cases(ctx):
                                       {"k": "seq", "els": [{"k": "call", "f": "inc"}]}, {"k": "seq", "els": []},
                                       {"k": "slice", "args": [1, -1, 0]},
                                       {"k": "runnonebad"}, {"k": "runnone", "f": "inc"},
+                                      {"k": "callx", "none": True, "exc": None},
+                                      {"k": "callx", "none": False, "exc": "LenaStopFill"},
+                                      {"k": "filterx", "exc": "LenaValueError"}, {"k": "synraise", "exc": "LenaStopFill"},
+                                      {"k": "synraise", "exc": "LenaTypeError"}, {"k": "both", "cflow": [1, 2], "iflow": [7]},
+                                      {"k": "runalt", "hasrun": True, "alt": 2}, {"k": "runalt", "hasrun": True, "alt": 1},
+                                      {"k": "runalt", "hasrun": True, "alt": 0}, {"k": "runalt", "hasrun": False, "alt": 2},
+                                      {"k": "classobj"}, {"k": "iter", "flow": [1, 2]}, {"k": "iter", "flow": [1, 2], "tuple": True},
                                       {"k": "runnamed", "el": {"k": "call", "f": "inc"}},
                                       {"k": "runnamed", "el": {"k": "reverse"}}, {"k": "runnamed", "el": {"k": "junk"}},
                                       {"k": "seq", "els": [{"k": "call", "f": "inc"}, {"k": "setctx"}, {"k": "count", "name": "n"},
@@ -1453,6 +1713,55 @@ def gen_cases(ctx):
             branches.append(b)
         yield ({"op": "splits", "branches": branches, "bufsize": rng.choice([None, 1, 2, 3, 4, 1000, 0]),
                 "flow": gen_flow(rng), "term": gen_term(rng)})
+    # one Source object called two or three times
+    for _ in range(500 if not thorough else 8000):
+        r = rng.random()
+        if r < 0.3:
+            first = {"k": "gen", "flow": gen_flow(rng, 5)}
+        elif r < 0.5:
+            # a container is iterated again and yields the SAME value objects: only immutable values (a Count or
+            # Variable in the tail changes contexts in place - aliasing is C04, this model has value semantics)
+            first = {"k": "iter", "flow": [rng.choice(INTS + ["s", NONE]) for _v in range(rng.randint(0, 5))]}
+        elif r < 0.9:
+            first = {"k": "iterobj", "cls": rng.choice(["generator", "list_iterator", "map", "islice"]),
+                     "flow": gen_flow(rng, 5), "term": None}
+        else:
+            first = {"k": "both", "cflow": gen_flow(rng, 4), "iflow": gen_flow(rng, 3)}
+        st = new_state(rerun=True)
+        if first["k"] == "iterobj":
+            st["region"]["stateful_seen"] = True      # no Slice: what is left in a one-pass iterator is pull accounting
+        n = rng.choice([0, 1, 1, 2, 2, 3, 4])
+        yield ({"op": "source_rerun", "first": first, "els": [gen_elem(rng, st, 0) for _ in range(n)],
+                "k": rng.choice([2, 2, 3])})
+    # one object passed twice to one Sequence (stateless elements)
+    for _ in range(150 if not thorough else 3000):
+        n = rng.choice([2, 3, 3, 4, 5])
+        st = new_state(rerun=True, stateless=True)
+        els = []
+        for _e in range(n):
+            for _try in range(20):
+                e = gen_atom(rng, st)
+                if e["k"] in ("call", "var", "filter", "slice", "reverse", "end", "callx", "filterx") and not (
+                        e["k"] == "slice" and e["args"] in BAD_SLICES):
+                    break
+            else:
+                e = {"k": "call", "f": "inc"}
+            els.append(e)
+        i, j = sorted(rng.sample(range(n), 2))
+        els[j] = els[i]
+        yield ({"op": "regroup", "els": els, "flow": gen_flow(rng), "term": gen_term(rng), "share": [i, j],
+                "brks": [flat_bracketing(n)] + [random_bracketing(rng, n) for _b in range(2)]})
+    # auxiliary model functions that theorems mention, against the code: runIfS, accFill/accCompute, pySlice
+    for _ in range(120 if not thorough else 2000):
+        ist = new_state(rerun=True, stateless=True)
+        yield ({"op": "tie", "what": "runifs", "p": rng.choice(PREDS),
+                "inner": [gen_elem(rng, ist, 1) for _e in range(rng.choice([0, 1, 2]))], "flow": gen_flow(rng),
+                "term": gen_term(rng)})
+        a = rng.choice([{"a": "sum"}, {"a": "mean"}, {"a": "store", "group": True}, {"a": "store", "group": False},
+                        {"a": "count", "name": "n"}])
+        fl = [v for v in gen_flow(rng) if not (isinstance(v, dict) and "q" in v)]
+        yield ({"op": "tie", "what": "accold", "acc": a, "flow": fl})
+        yield ({"op": "tie", "what": "pyslice", "args": rng.choice(SLICES), "flow": gen_flow(rng)})
     n_src = 1000 if not thorough else 15000
     for _ in range(n_src):
         n = rng.choice([0, 1, 2, 3, 4, 5, 6])
@@ -1466,7 +1775,9 @@ def gen_cases(ctx):
             cls = rng.choice(["generator", "generator", "list_iterator", "map", "islice"])
             first = {"k": "iterobj", "cls": cls, "flow": gen_flow(rng),
                      "term": gen_term(rng, 0.2) if cls == "generator" else None}
-        elif r < 0.95:
+        elif r < 0.93:
+            first = {"k": "both", "cflow": gen_flow(rng, 4), "iflow": gen_flow(rng, 3)}
+        elif r < 0.96:
             first = gen_elem(rng, new_state(), 1)
         else:
             # a Sequence of (non-sequence) elements: iterated, its arguments become the values of the flow
@@ -1514,8 +1825,10 @@ def _depth(b):
 def nontrivial(case, res):
     if case["op"] in ("flags", "source0"):
         return False
-    if case["op"] == "splits":
+    if case["op"] in ("splits", "tie"):
         return bool(res.get("r")) or res.get("t") is not None
+    if case["op"] == "source_rerun":
+        return isinstance(res["outs"], list) and len(res["outs"]) >= 2
     if case["op"] == "rerun":
         w = res["whole"]
         return isinstance(w, list) and len(w) >= 2 and any(o["r"] or o["t"] for o in w)
@@ -1526,8 +1839,10 @@ def nontrivial(case, res):
 
 def classify(case, res):
     op = case["op"]
-    if op in ("flags", "source0", "splits"):
+    if op in ("flags", "source0", "splits", "source_rerun"):
         return ["op:" + op]
+    if op == "tie":
+        return ["op:tie:" + case["what"]]
     labels = ["op:" + op]
     ks = []
     for s in case["els"]:
